@@ -84,6 +84,12 @@ Inductive kind :=
 (* round 7: one iteration on data of constrained_parafac (variant 1: MTTKRP without weights, weights on the column sums) and of
    non_negative_parafac_hals without normalisation (variant 2: MTTKRP paired with the last UPDATED mode); tape = factors after the iteration *)
 | KSweepV (variant : nat) (X : tensor F) (R : nat) (w : option (list F)) (fs_before fs_after : list (tensor F)) (ms : list nat) (rep : F)
+(* round 7: one sweep with cp_normalize inside it (non_negative_parafac_hals / non_negative_parafac, normalize_factors=True) on data: state at the
+   first MTTKRP call, tapes of the updated factors and of the in-sweep normalisations (both looked up by the mode), reported value *)
+| KNormSweep (X : tensor F) (R : nat) (w0 : option (list F)) (fs0 : list (tensor F)) (ms : list nat) (solve_tape : list (tensor F))
+             (norm_tape : list (option (list F) * list (tensor F))) (rep : F)
+(* round 7: randomised_parafac's gating: recorded values and in-loop callback invocations for the gates (compute, record, cb) *)
+| KRLoop (n_iter_max : nat) (stop_at : option nat) (compute record cb : bool) (n_recorded n_callbacks : nat)
 (* round 7: one iteration of the parafac loop on data with weights / line search (Model/Errors.v:fl_iteration): state and snapshot before,
    factors after the sweep (tape of the solve oracle), the printed jump and decision; the state the value belongs to and the value.
    tape = true: the candidate of the line search is the observed state (w2, fs2) - the verdict cases: a different extrapolation rule is not
@@ -200,6 +206,13 @@ Definition agree_kind (k : kind) : bool :=
       forallb (fun k => nat_list_eqb (shape (nth k (fst res) (mk [] []))) (shape (nth k fs1 (mk [] []))) &&
                         q_list_eqb (map toQ (data (nth k (fst res) (mk [] [])))) (map toQ (data (nth k fs1 (mk [] []))))) (seq 0 (length fs1))
       && rel_close (if Nat.eqb variant 1%nat then constrained_iteration_error Op solve X R w ms fs0 else hals_iteration_error Op solve X R w ms fs0) rep
+  | KNormSweep X R w0 fs0 ms solve_tape norm_tape rep =>
+      let pos := fun m => index_of m ms in
+      let solve := fun (m : nat) (_ : tensor F) (_ : list (tensor F)) => nth (pos m) solve_tape (mk [] []) in
+      let norm := fun (m : nat) (st : @cpstate F) => nth (pos m) norm_tape st in
+      Nat.eqb (length solve_tape) (length ms) && rel_close (norm_sweep_error Op solve norm true X R ms (w0, fs0)) rep
+  | KRLoop n stop_at compute record cb nr nc =>
+      let c := r_loop_counts n stop_at compute record cb in Nat.eqb (fst c) nr && Nat.eqb (snd c) nc
   | KIter X R card w0 fs0 snw snfs fs1 ms ls it tape jump acc w2 fs2 rep =>
       let orc := @mkFL F (fun _ m _ _ => nth m fs1 (mk [] [])) (fun _ sn st => if tape then (w2, fs2) else ls_extrapolate Op jump sn st) (fun _ _ _ => acc)
                          (fun st => st) (fun _ _ => false) in
